@@ -75,12 +75,413 @@ def correspondence(ctx):
         if nontrivial(sc, obs):
             nt.add(repr(scen.jsonable(sc)))
     failing, err = core.run_cases(ctx.pid, IMPORTS, terms, chunk=60)
-    return {"evaluations": n, "distinct_nontrivial": len(nt),
-            "rule": "random DAGs (2-6 nodes, fan-in/fan-out/diamonds/several entries and exits; node kinds fun, acc, Reservoir internal/external, "
-                    "Ridge readout, Delay, NVAR), histories run(array) / call / run(name-keyed mapping, return_states) / stateless run; "
-                    "non-trivial = at least 2 edges and a non-zero output; distinct by scenario text",
-            "samples": keep[:2], "distribution": dist, "tolerance": "1e-9 relative (qclose)",
-            "failing": [dict(keep[i], index=i) for i in failing], "error": err}
+    res = {"evaluations": n, "distinct_nontrivial": len(nt),
+           "rule": "random DAGs (2-6 nodes, fan-in/fan-out/diamonds/several entries and exits; node kinds fun, acc, Reservoir internal/external, "
+                   "Ridge readout, Delay, NVAR), histories run(array) / call / run(name-keyed mapping, return_states) / stateless run; "
+                   "non-trivial = at least 2 edges and a non-zero output; distinct by scenario text",
+           "samples": keep[:2], "distribution": dist, "tolerance": "1e-9 relative (qclose)",
+           "failing": [dict(keep[i], index=i) for i in failing], "error": err}
+    # second family: the data plumbing around the model (coq/model/Mapping.v); counts are merged
+    mp = mapping_correspondence(ctx)
+    res["evaluations"] += mp["evaluations"]
+    res["distinct_nontrivial"] += mp["distinct_nontrivial"]
+    res["rule"] += " || " + mp["rule"]
+    res["samples"] = res["samples"] + mp["samples"]
+    res["distribution"].update(mp["distribution"])
+    res["failing"] += [dict(c, index=n + c["index"], family="mapping") for c in mp["failing"]]
+    if mp["error"]:
+        res["error"] = (res["error"] or "") + "[mapping family] " + mp["error"]
+    return res
+
+
+# ------------------------------------------------------------------------------------------ family "mapping" (coq/model/Mapping.v)
+# The data plumbing of Model.run / Model.fit: utils/model_utils.py (to_ragged_seq_set, build_mapping, to_data_mapping, unfold_mapping,
+# fold_mapping, allocate_returned_states) and Model.run's loop over sequences, against coq/run/RunMapping.v.
+TRUSTED += ["family mapping: model.nodes / input_nodes / output_nodes (and their orders) and the is_trainable / unsupervised / fitted flags are read from the "
+            "real Model; _base.check_xy is modelled only as the acceptance test 'every receiver node is named' (its dimension checks and array "
+            "conversions are not modelled; scenarios keep dimensions consistent)"]
+ASSUMPTIONS += ["family mapping: under one sequence index all named inputs have the same number of timesteps (graphflow.dispatch takes the first key's "
+                "length and indexes the others: shorter ones raise IndexError, longer ones are silently cut - not modelled)",
+                "family mapping: Model.run without forced feedbacks (forced feedbacks over several sequences are covered by the 'runs' operation of "
+                "the scenario language)"]
+MAP_IMPORTS = ("From Coq Require Import List QArith.\nFrom RV Require Import base.Num model.ModelSem model.Kinds model.Mapping run.RunModel "
+               "run.RunMapping.\nImport ListNotations.\nOpen Scope Q_scope.")
+_mp_uid = [0]
+
+
+def _mp_real(v):
+    """A scenario value {"f": form, "v": payload} as the real object handed to reservoirpy."""
+    f, x = v["f"], v["v"]
+    if f == "arr1":
+        return np.array([float(core.frac(a)) for a in x], dtype=float)
+    if f == "arr2":
+        return scen.fl(x)
+    if f == "arr3":
+        return np.stack([scen.fl(r) for r in x])
+    return [scen.fl(r) for r in x]
+
+
+def _mp_value_term(v):
+    f, x = v["f"], v["v"]
+    if f == "arr1":
+        return "(VArr1 %s)" % core.qvec(x)
+    if f == "arr2":
+        return "(VArr2 %s)" % core.qmat(x)
+    return "(%s %s)" % ("VArr3" if f == "arr3" else "VList", core.coqlist([core.qmat(r) for r in x]))
+
+
+def _mp_data_real(d, name_of):
+    if "map" in d:
+        return {name_of(i): _mp_real(v) for i, v in d["map"]}
+    return _mp_real(d["val"])
+
+
+def _mp_data_term(d):
+    if "map" in d:
+        return "(DMap %s)" % core.coqlist(["(%s, %s)" % (core.nat(i), _mp_value_term(v)) for i, v in d["map"]])
+    return "(DVal %s)" % _mp_value_term(d["val"])
+
+
+def _mp_gen_value(rng, d, k=None, Ts=None, forms=("arr2", "arr3", "list", "list")):
+    """A random value with k sequences of lengths Ts (k = 1 for the 1-D / 2-D forms)."""
+    f = rng.choice(forms)
+    if f in ("arr1", "arr2"):
+        T = 1 if f == "arr1" else (Ts[0] if Ts else rng.randint(1, 4))
+        r = scengen.rows(rng, T, d)
+        return {"f": f, "v": r[0] if f == "arr1" else r}
+    k = k or rng.randint(1, 3)
+    if f == "arr3":
+        T = Ts[0] if Ts else rng.randint(1, 4)
+        if Ts and len(set(Ts)) > 1:
+            f = "list"
+        else:
+            return {"f": "arr3", "v": [scengen.rows(rng, T, d) for _ in range(k)]}
+    Ts = Ts or [rng.randint(1, 4) for _ in range(k)]
+    return {"f": "list", "v": [scengen.rows(rng, Ts[j], d) for j in range(k)]}
+
+
+def _mp_nseq(v):
+    return 1 if v["f"] in ("arr1", "arr2") else len(v["v"])
+
+
+def _mp_arr_term(a):
+    return core.qmat(np.asarray(a, dtype=float).reshape(np.shape(a)[0], -1).tolist())
+
+
+def _mp_dict_term(d, id_of, f):
+    return core.coqlist(["(%s, %s)" % (core.nat(id_of(k)), f(v)) for k, v in d.items()])
+
+
+def _mp_result_term(res, id_of):
+    if isinstance(res, np.ndarray):
+        return "(RBare %s)" % _mp_arr_term(res)
+    if isinstance(res, list):
+        return "(RBareList %s)" % core.coqlist([_mp_arr_term(a) for a in res])
+    if isinstance(res, dict):
+        if any(isinstance(v, list) for v in res.values()):
+            return "(RDictList %s)" % _mp_dict_term(res, id_of, lambda l: core.coqlist([_mp_arr_term(a) for a in l]))
+        return "(RDict %s)" % _mp_dict_term(res, id_of, _mp_arr_term)
+    return "RErr"
+
+
+def _mp_rs_term(rs):
+    if rs is None:
+        return "RsNone"
+    if rs == "all":
+        return "RsAll"
+    return "(RsNames %s)" % core.coqlist([core.nat(i) for i in rs])
+
+
+def _mp_mm_term(model, id_of):
+    mn = lambda n: "mkMN %s %s %s %s" % (core.nat(id_of(n.name)), core.coqbool(bool(n.is_trainable)), core.coqbool(bool(n.unsupervised)),
+                                         core.coqbool(bool(n.fitted)))
+    return "(mkMM %s %s %s)" % (core.coqlist([mn(n) for n in model.nodes]), core.coqlist([mn(n) for n in model.input_nodes]),
+                                core.coqlist([mn(n) for n in model.output_nodes]))
+
+
+# ---- (a) plumbing on small real models that are never run
+def _mp_gen_plumb(rng, i):
+    n = rng.randint(2, 5)
+    kinds = [rng.choice(["plain", "plain", "ridge", "ridge", "unsup", "ipres", "input"]) for _ in range(n)]
+    edges = []
+    for j in range(1, n):
+        for a in range(j):
+            if kinds[j] != "input" and rng.random() < 0.4:
+                edges.append([a, j])
+    d = rng.randint(1, 2)
+    sc = {"family": "mapping", "sub": "plumb", "tag": i, "kinds": kinds, "edges": edges, "d": d}
+    receivers = set(b for _, b in edges)
+    entries = [j for j in range(n) if j not in receivers]
+    sup = [j for j in range(n) if kinds[j] == "ridge"]
+    # X
+    r = rng.random()
+    if r < 0.45:
+        sc["X"] = {"val": _mp_gen_value(rng, d, forms=("arr1", "arr2", "arr3", "list", "list"))}
+    else:
+        k = rng.randint(1, 3)
+        Ts = [rng.randint(1, 4) for _ in range(k)]
+        items = [[e, _mp_gen_value(rng, d, k, Ts, forms=("arr2", "arr3", "list") if k == 1 else ("arr3", "list"))] for e in entries]
+        u = rng.random()
+        if u < 0.15 and len(items) > 1:
+            items.pop(rng.randrange(len(items)))                          # an input node is not named: refused
+        elif u < 0.30 and len(items) > 1:
+            items[rng.randrange(len(items))][1] = _mp_gen_value(rng, d, k + 1, None, forms=("list",))   # inconsistent numbers of sequences
+        elif u < 0.45:
+            items.append([rng.choice([j for j in range(n)] + [900]), _mp_gen_value(rng, d, k, Ts, forms=("list",))])  # a further name
+            if items[-1][0] in [a for a, _ in items[:-1]]:
+                items.pop()
+        rng.shuffle(items)
+        sc["X"] = {"map": items}
+    # Y
+    r = rng.random()
+    if r < 0.35:
+        sc["Y"] = None
+    elif r < 0.6:
+        sc["Y"] = {"val": _mp_gen_value(rng, d, forms=("arr2", "arr3", "list"))}
+    else:
+        k = rng.randint(1, 3)
+        Ts = [rng.randint(1, 4) for _ in range(k)]
+        items = [[e, _mp_gen_value(rng, d, k, Ts, forms=("arr2", "list") if k == 1 else ("arr3", "list"))] for e in sup]
+        if items and rng.random() < 0.2:
+            items.pop(rng.randrange(len(items)))
+        if len(items) > 1 and rng.random() < 0.2:
+            items[0][1] = _mp_gen_value(rng, d, k + 1, None, forms=("list",))
+        sc["Y"] = {"map": items}
+    # a mapping of lists handed to unfold_mapping directly
+    k = rng.randint(1, 3)
+    keysu = rng.sample(range(n), rng.randint(0 if rng.random() < 0.1 else 1, n))
+    sc["U"] = [[j, [scengen.rows(rng, rng.randint(1, 3), d) for _ in range(k + (1 if rng.random() < 0.15 else 0))]] for j in keysu]
+    # states handed to fold_mapping directly
+    sc["rs"] = rng.choice([None, None, "all", "names"])
+    sc["nstates"] = rng.randint(1, 3)
+    sc["ragged_keys"] = rng.random() < 0.15
+    return sc
+
+
+def _mp_build_plumb(sc):
+    import reservoirpy as rpy
+    rpy.verbosity(0)
+    from reservoirpy.model import Model
+    from reservoirpy.node import Node, Unsupervised
+    from reservoirpy.nodes import Input, IPReservoir, Ridge
+    _mp_uid[0] += 1
+    pre = "mp%d_" % _mp_uid[0]
+
+    def init(node, x=None, **kw):
+        node.set_input_dim(x.shape[1]); node.set_output_dim(x.shape[1])
+    nodes = []
+    for j, k in enumerate(sc["kinds"]):
+        nm = "%sn%d" % (pre, j)
+        if k == "plain":
+            nodes.append(Node(forward=lambda nd, x: x, initializer=init, name=nm))
+        elif k == "ridge":
+            nodes.append(Ridge(output_dim=sc["d"], name=nm))
+        elif k == "unsup":
+            nodes.append(Unsupervised(forward=lambda nd, x: x, initializer=init, partial_backward=lambda *a, **kw: None,
+                                      backward=lambda *a, **kw: None, name=nm))
+        elif k == "ipres":
+            nodes.append(IPReservoir(2, name=nm))
+        else:
+            nodes.append(Input(name=nm))
+    model = Model(nodes, [(nodes[a], nodes[b]) for a, b in sc["edges"]], name=pre + "m")
+    ids = {n.name: j for j, n in enumerate(nodes)}
+    ids[pre + "zz"] = 900
+    extra = [n for n in model.nodes if n.name not in ids]
+    for q_, n in enumerate(extra):
+        ids[n.name] = 1000 + q_
+    names = {v: k for k, v in ids.items()}
+    return model, ids, names
+
+
+def _mp_plumb_terms(sc):
+    """Run the real helper functions on one plumbing scenario; returns the list of chk_* terms."""
+    from reservoirpy.utils import model_utils as mu
+    model, ids, names = _mp_build_plumb(sc)
+    id_of, name_of = (lambda nm: ids[nm]), (lambda i: names[i])
+    mm = _mp_mm_term(model, id_of)
+    seqs = lambda l: core.coqlist([_mp_arr_term(a) for a in l])
+    terms = []
+    # to_data_mapping
+    X = _mp_data_real(sc["X"], name_of)
+    Y = None if sc["Y"] is None else _mp_data_real(sc["Y"], name_of)
+    try:
+        xs, ys = mu.to_data_mapping(model, X, Y)
+        obs = "(Some (%s, %s))" % (core.coqlist([_mp_dict_term(m, id_of, _mp_arr_term) for m in xs]),
+                                   core.coqlist(["None" if m is None else "(Some %s)" % _mp_dict_term(m, id_of, _mp_arr_term) for m in ys]))
+    except (ValueError, IndexError, KeyError):
+        obs = "None"
+    terms.append("chk_to_data_mapping %s %s %s %s" % (mm, _mp_data_term(sc["X"]), "None" if sc["Y"] is None else "(Some %s)" % _mp_data_term(sc["Y"]), obs))
+    # build_mapping on the input nodes / the trainable nodes
+    for d, nodes, tgt in ((sc["X"], model.input_nodes, False), (sc["Y"], model.trainable_nodes, True)):
+        if d is None:
+            continue
+        got = mu.build_mapping(nodes, _mp_data_real(d, name_of), io_type="target" if tgt else "input")
+        mn = lambda n: "mkMN %s %s %s %s" % (core.nat(id_of(n.name)), core.coqbool(bool(n.is_trainable)), core.coqbool(bool(n.unsupervised)), core.coqbool(bool(n.fitted)))
+        terms.append("chk_build_mapping %s %s %s %s" % (core.coqlist([mn(n) for n in nodes]), _mp_data_term(d), core.coqbool(tgt),
+                                                        _mp_dict_term(got, id_of, lambda l: seqs(list(l)))))
+    # unfold_mapping
+    dm = {name_of(j): [scen.fl(r) for r in l] for j, l in sc["U"]}
+    try:
+        obs = "(Some %s)" % core.coqlist([_mp_dict_term(m, id_of, _mp_arr_term) for m in mu.unfold_mapping(dm)])
+    except (ValueError, IndexError):
+        obs = "None"
+    terms.append("chk_unfold %s %s" % (core.coqlist(["(%s, %s)" % (core.nat(j), core.coqlist([core.qmat(r) for r in l])) for j, l in sc["U"]]), obs))
+    # fold_mapping on per-sequence state dicts keyed like allocate_returned_states keys them
+    rng = core.random.Random("fold/%s" % sc["tag"])
+    if sc["rs"] is None:
+        keysf, rs = [ids[n.name] for n in model.output_nodes], None
+    elif sc["rs"] == "all":
+        keysf, rs = [ids[n.name] for n in model.nodes], "all"
+    else:
+        rs = [ids[n.name] for n in rng.sample(model.nodes, rng.randint(1, len(model.nodes)))]
+        keysf = list(rs)
+    states = []
+    for j in range(sc["nstates"]):
+        ks = list(keysf)
+        if sc["ragged_keys"] and j > 0:
+            ks = list(reversed(ks))[:max(1, len(ks) - 1)] + [900]
+        T = rng.randint(1, 3)
+        states.append([[k, scengen.rows(rng, T, sc["d"])] for k in ks])
+    real_states = [{name_of(k): scen.fl(r) for k, r in st} for st in states]
+    try:
+        got = mu.fold_mapping(model, real_states, None if rs is None else ("all" if rs == "all" else [name_of(k) for k in rs]))
+        obs = _mp_result_term(got, id_of)
+    except KeyError:
+        obs = "RErr"
+    terms.append("chk_fold %s %s %s %s" % (mm, core.coqlist([core.coqlist(["(%s, %s)" % (core.nat(k), core.qmat(r)) for k, r in st]) for st in states]),
+                                           _mp_rs_term(rs), obs))
+    return terms
+
+
+# ---- (b) Model.run on scenario models (the node kinds of the scenario language), every input / return_states form
+def _mp_gen_run(rng, i):
+    nodes, edges, entries, din = scengen.gen_dag(rng, n=rng.randint(2, 5))
+    sc = {"family": "mapping", "sub": "run", "nodes": nodes, "models": scengen.chain_models(nodes, edges), "ops": [], "entries": entries,
+          "din": din, "tag": i, "runs": []}
+    for _ in range(rng.randint(1, 2)):
+        k = rng.randint(1, 3)
+        Ts = [rng.randint(1, 3) for _ in range(k)]
+        if rng.random() < 0.5:
+            X = {"val": _mp_gen_value(rng, din, k, Ts, forms=("arr1", "arr2") if (k == 1 and rng.random() < 0.5) else ("arr3", "list", "list"))}
+        else:
+            X = {"map": [[e, _mp_gen_value(rng, din, k, Ts, forms=("arr2", "list", "arr3") if k == 1 else ("arr3", "list"))] for e in entries]}
+            rng.shuffle(X["map"])
+        r = rng.random()
+        rs = None if r < 0.4 else ("all" if r < 0.65 else "names")
+        if rs == "names":
+            ids = [nd["id"] for nd in nodes]
+            rs = rng.sample(ids, rng.randint(1, len(ids)))
+            if rng.random() < 0.3:
+                rs.append(rs[0])
+        sc["runs"].append({"X": X, "rs": rs, "stateful": rng.random() < 0.75, "reset": rng.random() < 0.3})
+    return sc
+
+
+def _mp_nodes_models_terms(sc, b):
+    """The static part of scen.to_coq (node and model records, inserted Concat nodes) for model 0."""
+    nodes = ["mkSN %s %s %s %s %s" % (core.nat(nd["id"]), scen.kind_term(nd), scen.fb_term(nd, b), core.nat(nd["odim"]), scen.hid_term(nd))
+             for nd in sc["nodes"]]
+    order, parents, outs = b.model_struct(0)
+    odim = {nd["id"]: nd["odim"] for nd in sc["nodes"]}
+    for i in order:
+        if i >= 1000 and i not in odim:
+            odim[i] = sum(odim.get(p, 0) for p in parents.get(i, []))
+            nodes.append("mkSN %s KId None %s []" % (core.nat(i), core.nat(odim[i])))
+    sm = "(mkSM %s %s %s)" % (core.coqlist([core.nat(i) for i in order]),
+                              core.coqlist(["(%s, %s)" % (core.nat(c), core.coqlist([core.nat(p) for p in ps])) for c, ps in sorted(parents.items())]),
+                              core.coqlist([core.nat(i) for i in outs]))
+    return core.coqlist(nodes), sm
+
+
+def _mp_states(b):
+    st = {}
+    for i, n in b.all_nodes().items():
+        s = n.state() if getattr(n, "is_initialized", False) else None
+        if s is not None:
+            st[i] = np.asarray(s, dtype=float).ravel().tolist()
+    return st
+
+
+def _mp_run_terms(sc):
+    from reservoirpy.utils import model_utils as mu
+    b = scen.Built(sc)
+    model = b.models[0]
+    b.model_struct(0)                       # registers inserted Concat nodes (ids >= 1000)
+    id_of = lambda nm: b.ids[nm]
+    name_of = lambda i: b.all_nodes()[int(i)].name
+    mm = _mp_mm_term(model, id_of)
+    nodes_t, sm_t = _mp_nodes_models_terms(sc, b)
+    obs, moved = [], False
+    for r in sc["runs"]:
+        kw = dict(stateful=r["stateful"], reset=r["reset"])
+        if r["rs"] is not None:
+            kw["return_states"] = "all" if r["rs"] == "all" else [name_of(i) for i in r["rs"]]
+        res = model.run(_mp_data_real(r["X"], name_of), **kw)
+        obs.append(_mp_result_term(res, id_of))
+        flat = res if isinstance(res, np.ndarray) else np.concatenate([np.ravel(a) for v in (res.values() if isinstance(res, dict) else [res])
+                                                                       for a in (v if isinstance(v, list) else [v])])
+        moved = moved or bool(np.any(np.asarray(flat) != 0))
+    states = scen.pairs(_mp_states(b), core.qvec)
+    R = sc["runs"]
+    args = lambda r, o: "%s %s %s %s %s" % (core.coqbool(r["stateful"]), core.coqbool(r["reset"]), _mp_data_term(r["X"]), _mp_rs_term(r["rs"]), o)
+    if len(R) == 1:
+        r = R[0]
+        terms = ["chk_model_run %s %s %s %s %s [] %s %s true %s %s" % (nodes_t, sm_t, mm, core.coqbool(r["stateful"]), core.coqbool(r["reset"]),
+                                                                      _mp_data_term(r["X"]), _mp_rs_term(r["rs"]), obs[0], states)]
+    else:
+        terms = ["chk_model_run2 %s %s %s %s %s %s" % (nodes_t, sm_t, mm, args(R[0], obs[0]), args(R[1], obs[1]), states)]
+    # allocate_returned_states on the (now initialised) model: names, and one zero row per timestep and output dimension per name
+    T = 3
+    inputs = {n.name: np.zeros((T, n.input_dim if isinstance(n.input_dim, int) else 1)) for n in model.input_nodes}
+    for rs in (None, "all", R[0]["rs"] if isinstance(R[0]["rs"], list) else [sc["nodes"][0]["id"], 900]):
+        try:
+            al = mu.allocate_returned_states(model, inputs, None if rs is None else ("all" if rs == "all" else [name_of(i) if i != 900 else "no_such_node" for i in rs]))
+            ok_shapes = all(np.shape(v) == (T, model[k].output_dim) and not np.any(v) for k, v in al.items())
+            o = "(Some %s)" % core.coqlist([core.nat(id_of(k)) for k in al]) if ok_shapes else "(Some [4242%nat])"
+        except KeyError:
+            o = "None"
+        terms.append("chk_alloc %s %s %s" % (mm, _mp_rs_term(rs), o))
+    return terms, moved
+
+
+def _mp_nontrivial(sc):
+    if sc["sub"] == "plumb":
+        return "map" in sc["X"] or _mp_nseq(sc["X"]["val"]) >= 2
+    return any("map" in r["X"] or _mp_nseq(r["X"]["val"]) >= 2 for r in sc["runs"])
+
+
+def mapping_correspondence(ctx):
+    """Correspondence family of coq/model/Mapping.v.  Returns the same kind of dict as `correspondence`."""
+    rng = ctx.rng("corr-mapping")
+    n_pl, n_run = ctx.n(90, 900), ctx.n(45, 450)
+    terms, keep, nt, dist = [], [], set(), {}
+    scs = [_mp_gen_plumb(rng, "p%d" % i) for i in range(n_pl)] + [_mp_gen_run(rng, "r%d" % i) for i in range(n_run)]
+    for sc in scs:
+        try:
+            if sc["sub"] == "plumb":
+                ts, moved = _mp_plumb_terms(sc), True
+            else:
+                ts, moved = _mp_run_terms(sc)
+        except Exception as e:  # noqa: BLE001 - a valid scenario must not make the real functions (or the harness) fail
+            terms.append("false")
+            keep.append({"scenario": scen.jsonable(sc), "harness_error": repr(e)})
+            continue
+        terms.append("(" + ") && (".join(ts) + ")" if len(ts) > 1 else ts[0])
+        keep.append({"scenario": scen.jsonable(sc), "checks": len(ts)})
+        dist["mapping:" + sc["sub"]] = dist.get("mapping:" + sc["sub"], 0) + 1
+        for d in ([sc["X"]] if sc["sub"] == "plumb" else [r["X"] for r in sc["runs"]]):
+            f = "mapping:X=" + ("dict" if "map" in d else d["val"]["f"])
+            dist[f] = dist.get(f, 0) + 1
+        if moved and _mp_nontrivial(sc):
+            nt.add(repr(scen.jsonable(sc)))
+    failing, err = core.run_cases(ctx.pid + "_mapping", MAP_IMPORTS, terms, chunk=20)
+    return {"evaluations": len(scs), "distinct_nontrivial": len(nt),
+            "rule": "family mapping (model/Mapping.v): the real to_data_mapping / build_mapping / unfold_mapping / fold_mapping / allocate_returned_states on "
+                    "small models (plain, Ridge, Unsupervised, IPReservoir, Input nodes) with 1-D / 2-D / 3-D arrays, lists and name-keyed mappings of 1-3 "
+                    "sequences of different lengths (also refused ones: missing input name, unequal numbers of sequences), and Model.run with every input "
+                    "form x return_states None / 'all' / names x stateful / reset, one or two runs in a row; keys and key order, nesting form, numbers and "
+                    "lengths of sequences compared exactly, values within 1e-9; non-trivial = a mapping or >= 2 sequences (and a non-zero output for runs)",
+            "samples": keep[:1], "distribution": dist, "failing": [dict(keep[i], index=i) for i in failing], "error": err}
 
 
 # ------------------------------------------------------------------------------------------ oracle on the implementation
@@ -191,6 +592,213 @@ def _judge(sc):
     return None
 
 
+# ---- direct decisions on the real code for the mapping family (no Coq model involved)
+def _mp_seqs_of(v):
+    """The sequences a scenario value stands for, as float arrays."""
+    if v["f"] == "arr1":
+        return [scen.fl([v["v"]])]
+    if v["f"] == "arr2":
+        return [scen.fl(v["v"])]
+    return [scen.fl(r) for r in v["v"]]
+
+
+def _mp_same(a, b):
+    a, b = np.asarray(a, dtype=float), np.asarray(b, dtype=float)
+    return a.shape == b.shape and bool(np.allclose(a, b, rtol=1e-12, atol=1e-12))
+
+
+def _judge_mapping(sc):
+    from reservoirpy.utils import model_utils as mu
+    if sc["sub"] == "plumb":
+        model, ids, names = _mp_build_plumb(sc)
+        name_of = lambda i: names[i]
+        ins = [n.name for n in model.input_nodes]
+        tr = [n for n in model.trainable_nodes]
+        X, Y = sc["X"], sc["Y"]
+        # --- which data are well-formed
+        if "map" in X:
+            given = {name_of(i): _mp_seqs_of(v) for i, v in X["map"]}
+            x_ok = all(nm in given for nm in ins) and len(set(len(l) for l in given.values())) == 1
+            x_uneq = len(set(len(l) for l in given.values())) > 1
+        else:
+            given, x_ok, x_uneq = {nm: _mp_seqs_of(X["val"]) for nm in ins}, True, False
+        Xr = _mp_data_real(X, name_of)
+        try:
+            xs, _ = mu.to_data_mapping(model, Xr)
+        except (ValueError, IndexError, KeyError) as e:
+            if x_ok:
+                return _viol("mapping:valid-input-refused", "to_data_mapping refuses a well-formed input (%r)" % (e,), sc)
+            xs = None
+        if xs is not None:
+            if x_uneq:
+                return _viol("mapping:unequal-sequence-counts-accepted", "a mapping whose keys have different numbers of sequences is accepted "
+                             "(sequences are silently dropped or mixed)", sc)
+            if x_ok:
+                k = len(next(iter(given.values())))
+                if len(xs) != k:
+                    return _viol("mapping:sequence-count", "to_data_mapping yields %d sequences for an input of %d" % (len(xs), k), sc, k, len(xs))
+                for j, m in enumerate(xs):
+                    if "map" not in X and sorted(m) != sorted(ins):
+                        return _viol("mapping:array-input:not-exactly-entries", "an array input is not given to exactly the input nodes", sc, sorted(ins), sorted(m))
+                    if "map" in X and list(m) != list(given):
+                        return _viol("mapping:named-input:keys", "a name-keyed input does not reach exactly the named nodes", sc, list(given), list(m))
+                    for nm in m:
+                        if not _mp_same(m[nm], given[nm][j]):
+                            return _viol("mapping:input-values", "sequence %d of node %s is not the data given for it" % (j, nm), sc)
+        # --- targets
+        if Y is not None and x_ok:
+            sup = [n.name for n in tr if not n.unsupervised]
+            if "map" in Y:
+                giveny = {name_of(i): _mp_seqs_of(v) for i, v in Y["map"]}
+                y_ok = all((n.name in giveny) or n.fitted for n in tr) and len(set(len(l) for l in giveny.values())) <= 1
+            else:
+                giveny = {nm: _mp_seqs_of(Y["val"]) for nm in sup}
+                y_ok = all((not n.unsupervised) or n.fitted for n in tr)
+            try:
+                _, ys = mu.to_data_mapping(model, Xr, _mp_data_real(Y, name_of))
+            except (ValueError, IndexError, KeyError) as e:
+                if y_ok:
+                    return _viol("mapping:valid-target-refused", "to_data_mapping refuses well-formed targets (%r)" % (e,), sc)
+                ys = None
+            if ys is not None and y_ok and giveny:
+                ky = len(next(iter(giveny.values())))
+                if len(ys) != ky:
+                    return _viol("mapping:sequence-count", "to_data_mapping yields %d target sequences for targets of %d" % (len(ys), ky), sc, ky, len(ys))
+                for j, m in enumerate(ys):
+                    if "map" not in Y and sorted(m) != sorted(sup):
+                        return _viol("mapping:target-array:not-exactly-trainable", "a target array is not given to exactly the supervised trainable nodes",
+                                     sc, sorted(sup), sorted(m))
+                    if "map" in Y and list(m) != list(giveny):
+                        return _viol("mapping:named-target:keys", "name-keyed targets do not reach exactly the named nodes", sc, list(giveny), list(m))
+                    for nm in m:
+                        if not _mp_same(m[nm], giveny[nm][j]):
+                            return _viol("mapping:target-values", "target sequence %d of node %s is not the data given for it" % (j, nm), sc)
+        # --- unfold_mapping on its own
+        dm = {name_of(j): [scen.fl(r) for r in l] for j, l in sc["U"]}
+        if dm:
+            rect = len(set(len(l) for l in dm.values())) == 1
+            try:
+                un = mu.unfold_mapping(dm)
+            except ValueError:
+                un = None
+                if rect:
+                    return _viol("mapping:valid-input-refused", "unfold_mapping refuses a mapping whose keys all have the same number of sequences", sc)
+            if un is not None:
+                if not rect:
+                    return _viol("mapping:unequal-sequence-counts-accepted", "unfold_mapping accepts a mapping whose keys have different numbers of sequences", sc)
+                k = len(next(iter(dm.values())))
+                if len(un) != k or any(list(m) != list(dm) for m in un) or any(not _mp_same(un[j][nm], dm[nm][j]) for j in range(len(un)) for nm in dm):
+                    return _viol("mapping:unfold", "unfold_mapping does not return, for every sequence index, each name with its own sequence of that index", sc)
+        # --- fold_mapping on rectangular per-sequence states
+        if not sc["ragged_keys"]:
+            rng = core.random.Random("fold/%s" % sc["tag"])
+            if sc["rs"] is None:
+                keysf, rs = [n.name for n in model.output_nodes], None
+            elif sc["rs"] == "all":
+                keysf, rs = [n.name for n in model.nodes], "all"
+            else:
+                rs = [n.name for n in rng.sample(model.nodes, rng.randint(1, len(model.nodes)))]
+                keysf = list(rs)
+            states = []
+            for j in range(sc["nstates"]):
+                T = rng.randint(1, 3)
+                states.append({k: scen.fl(scengen.rows(rng, T, sc["d"])) for k in keysf})
+            try:
+                got = mu.fold_mapping(model, states, rs)
+            except KeyError as e:
+                return _viol("mapping:result-form", "fold_mapping raises %r on the per-sequence states of one model" % (e,), sc)
+            v = _mp_form(sc, got, states, keysf, rs is None and len(keysf) == 1, "fold_mapping")
+            if v:
+                return v
+        return None
+    # ---- sub == "run": Model.run on a list / 3-D array / mapping of lists = the per-sequence runs in turn
+    b1, b2 = scen.Built(sc), scen.Built(sc)
+    m1, m2 = b1.models[0], b2.models[0]
+    for r in sc["runs"]:
+        kw1 = dict(stateful=r["stateful"], reset=r["reset"])
+        kw2 = dict(kw1)
+        if r["rs"] is not None:
+            kw1["return_states"] = "all" if r["rs"] == "all" else [b1.nodes[i].name for i in r["rs"]]
+            kw2["return_states"] = "all" if r["rs"] == "all" else [b2.nodes[i].name for i in r["rs"]]
+        X = r["X"]
+        try:
+            got = m1.run(_mp_data_real(X, lambda i: b1.nodes[int(i)].name), **kw1)
+        except Exception as e:  # noqa: BLE001
+            return _viol("mapping:run-exception", "Model.run on a valid input raises %r" % (e,), sc)
+        per = {i: _mp_seqs_of(v) for i, v in X["map"]} if "map" in X else None
+        k = len(next(iter(per.values()))) if per else len(_mp_seqs_of(X["val"]))
+        singles = []
+        for j in range(k):
+            xj = {b2.nodes[int(i)].name: l[j] for i, l in per.items()} if per else _mp_seqs_of(X["val"])[j]
+            try:
+                one = m2.run(xj, **kw2)
+            except Exception as e:  # noqa: BLE001
+                return _viol("mapping:run-exception", "Model.run on one valid sequence raises %r" % (e,), sc)
+            singles.append(one if isinstance(one, dict) else {None: one})
+        # names as ids so that both builds compare
+        id1 = lambda nm: b1.ids.get(nm, nm)
+        id2 = lambda nm: b2.ids.get(nm, nm) if nm is not None else None
+        if r["rs"] is None:
+            want = [n.name for n in m1.output_nodes]
+        elif r["rs"] == "all":
+            want = [n.name for n in m1.nodes]
+        else:
+            want = list(dict.fromkeys(kw1["return_states"]))
+        bare = r["rs"] is None and len(want) == 1
+        cat1 = {n.name for n in m1.nodes if n.name not in b1.ids}
+        cat2 = {n.name for n in m2.nodes if n.name not in b2.ids}
+        states = []
+        for one in singles:
+            st = {}
+            for nm2, a in one.items():
+                if nm2 is None:
+                    st[want[0]] = a
+                elif nm2 in cat2:
+                    if len(cat1) == 1 and len(cat2) == 1:
+                        st[next(iter(cat1))] = a
+                else:
+                    st[b1.nodes[b2.ids[nm2]].name] = a
+            states.append(st)
+        if len(cat1) > 1:      # several inserted Concat nodes cannot be paired between two builds by name: compare the others
+            want_cmp = [w for w in want if w not in cat1]
+        else:
+            want_cmp = want
+        v = _mp_form(sc, got, states, want, bare, "Model.run", compare=want_cmp)
+        if v:
+            return v
+    return None
+
+
+def _mp_form(sc, got, states, want, bare, who, compare=None):
+    """The folded result [got] of per-sequence results [states] (dicts name -> array): one sequence -> arrays, several -> lists of that length;
+    a bare value iff [bare], else keyed by exactly the names [want]; the j-th entry is the j-th sequence's."""
+    k = len(states)
+    compare = want if compare is None else compare
+    if bare:
+        if isinstance(got, dict):
+            return _viol("mapping:result-form", "%s: a single output without return_states is not returned bare" % who, sc)
+        got = {want[0]: got}
+    else:
+        if not isinstance(got, dict) or sorted(got) != sorted(want):
+            return _viol("mapping:result-form", "%s: results are not keyed by exactly the requested / output node names" % who, sc,
+                         sorted(want), sorted(got) if isinstance(got, dict) else type(got).__name__)
+    for nm in want:
+        val = got[nm]
+        if k == 1:
+            if isinstance(val, list):
+                return _viol("mapping:result-form", "%s: one input sequence gives a list instead of an array" % who, sc)
+            val = [val]
+        elif not isinstance(val, list) or len(val) != k:
+            return _viol("mapping:result-form", "%s: %d input sequences do not give a list of %d arrays" % (who, k, k), sc, k,
+                         len(val) if isinstance(val, list) else type(val).__name__)
+        if nm in compare:
+            for j in range(k):
+                if not _mp_same(val[j], states[j][nm]):
+                    return _viol("mapping:run-sequences", "%s: entry %d of node %s is not the result of sequence %d processed in its turn" % (who, j, nm, j), sc,
+                                 np.asarray(states[j][nm]).tolist(), np.asarray(val[j]).tolist())
+    return None
+
+
 def _judge_dtype(rng, tag):
     """A node with a non-default dtype inside a model: its state (what the model reports for it) is its forward result cast to that dtype, and
     every successor is evaluated on THAT value -- the reported states are a solution of the graph equations."""
@@ -222,6 +830,8 @@ def _judge_dtype(rng, tag):
 
 
 def judge(case):
+    if (case.get("scenario") or {}).get("family") == "mapping":
+        return _judge_mapping(case["scenario"])
     return _judge(case["scenario"])
 
 
@@ -237,13 +847,33 @@ def oracle(ctx, scale=1):
     v = _judge_dtype(rng, "%d" % ctx.seed)
     if v:
         out.append(v)
-    return {"evaluations": n + 2, "violations": out,
-            "rule": "Model.run(return_states='all') vs explicit evaluation of each real node after its predecessors; result form; nodes with a non-default dtype"}
+    # the data plumbing (family mapping): array / named inputs and targets reach exactly the right nodes, sequences are unfolded / folded index by
+    # index, Model.run over several sequences = the per-sequence runs in turn, result form
+    rngm = ctx.rng("oracle-mapping")
+    mscs = [_mp_gen_plumb(rngm, "op%d" % i) for i in range(ctx.n(60, 600) * scale)] + [_mp_gen_run(rngm, "or%d" % i) for i in range(ctx.n(25, 250) * scale)]
+    for sc in mscs:
+        v = _judge_mapping(sc)
+        if v:
+            out.append(v)
+    # run -> in-place extension of the SAME Model object -> run (whatever the first run cached about the graph must be forgotten)
+    from props import c02_probes
+    out += c02_probes.judge_inplace_after_run("%d" % ctx.seed)
+    return {"evaluations": n + 2 + len(mscs) + 8, "violations": out,
+            "rule": "Model.run(return_states='all') vs explicit evaluation of each real node after its predecessors; result form; nodes with a non-default dtype; "
+                    "to_data_mapping / unfold_mapping / fold_mapping / Model.run over 1-3 sequences decided directly (keys, sequence counts, values, per-sequence runs); "
+                    "run / call, in-place extension (&=, merge(inplace=True)) that changes the exits, run / call again: result = composition along the new graph"}
 
 
 def replay(payload):
+    if (payload.get("scenario") or {}).get("kind") == "inplace-after-run":
+        from props import c02_probes
+        vs = c02_probes.judge_inplace_after_run("rp")
+        return {"violates": bool(vs), "detail": vs[:1]}
     if (payload.get("scenario") or {}).get("kind") == "dtype":
         v = _judge_dtype(core.random.Random(0), "rp")
+        return {"violates": bool(v), "detail": v}
+    if (payload.get("scenario") or {}).get("family") == "mapping":
+        v = _judge_mapping(payload["scenario"])
         return {"violates": bool(v), "detail": v}
     v = _judge(payload["scenario"])
     return {"violates": bool(v), "detail": v}
